@@ -32,10 +32,10 @@ PROP = dict(
     level_note=_NOTE,
     assumptions=["stable membership: every node sees the same peer set", "fake Honeycomb accepts everything (status 202); no network loss on loopback", "decision memory large enough that nothing is evicted", "clockwork fake clocks and the guarded collector hooks (collect/verif_on.go) are trusted"],
     stages=[
-        _walk("system-base", "MCSystemBase", "MC_System_base_q.cfg", "MC_System_base_t.cfg", 10, 60),
-        _walk("system-stress", "MCSystemStress", "MC_System_stress_q.cfg", "MC_System_stress_t.cfg", 10, 45),
-        _walk("system-stress3", "MCSystemStress", None, "MC_System_stress3_t.cfg", 0, 40, tiers=("thorough",)),
-        _walk("system-trio", "MCSystemBase", None, "MC_System_trio_t.cfg", 0, 40, tiers=("thorough",)),
+        _walk("system-base", "MCSystemBase", "MC_System_base_q.cfg", "MC_System_base_t.cfg", 8, 45),
+        _walk("system-stress", "MCSystemStress", "MC_System_stress_q.cfg", "MC_System_stress_t.cfg", 8, 40),
+        _walk("system-stress3", "MCSystemStress", None, "MC_System_stress3_t.cfg", 0, 30, tiers=("thorough",)),
+        _walk("system-trio", "MCSystemBase", None, "MC_System_trio_t.cfg", 0, 30, tiers=("thorough",)),
         dict(kind="tlc", name="system-live", module="MCSystemBase", cfg={"quick": None, "thorough": "MC_System_live.cfg"}, workers=4, tiers=("thorough",)),
         dict(kind="tlc", name="system-mc", module="MCSystemStress", cfg={"quick": None, "thorough": "MC_System_mc.cfg"}, workers=8, tiers=("thorough",)),
     ],
